@@ -92,6 +92,12 @@ func rewardLists(am []int64) []string {
 			out = append(out, "["+coin(dA, x)+","+coin(dA, y)+"]") // duplicate denomination
 		}
 	}
+	// three entries with a denomination repeated non-adjacently
+	for _, x := range am {
+		for _, y := range am {
+			out = append(out, "["+coin(dA, x)+","+coin(dB, y)+","+coin(dA, x)+"]", "["+coin(dB, y)+","+coin(dA, x)+","+coin(dB, y)+"]")
+		}
+	}
 	// values the module's validation must refuse (negative amount, empty list, empty denom)
 	out = append(out, `[{"denom":"aaa","amount":"-1"}]`, `[]`, `[{"denom":"","amount":"1"}]`)
 	return out
@@ -312,9 +318,7 @@ func (s *sys) Apply(op string) (obs, class string, viols []bfs.Viol) {
 	}()
 	if pan != nil {
 		s.dead = fmt.Sprint(pan)
-		if ambiguous {
-			return "panic", "panic with duplicate reward denominations (decided by C15, not C20)", viols
-		}
+		// under every reading of a list that repeats a denomination the block must move min(..) of it; a panic moves nothing and halts the chain
 		viols = append(viols, bfs.Viol{Sig: "block-panics", Detail: fmt.Sprintf("params=%s pool=%s op=%s: block processing panicked: %v", p.String(), pool, op, pan)})
 		return "panic", "panic", viols
 	}
